@@ -74,6 +74,10 @@ def run_case(case):
             yes += want
             no += not want
             p2 = pkt + [digest] if (i + j) % 5 == 0 and pkt else pkt
+            if (i + j) % 11 == 3 and pkt:
+                # of two trailing implicit digests only the last one is the packet's own; the other is a component of the name
+                p2 = pkt + [digest, digest]
+                want = L.can_sign(sch, pkt + [digest], key, fns, ex)
             k2 = key + [digest] if (i + 2 * j) % 7 == 0 and key else key
             held = None
             if (i + j) % 4 == case.get('salt', 0) % 4 and matching:
